@@ -56,6 +56,10 @@ def encodings(rng):
         "floats within a float32 ulp": lambda c, t: pick(rng.choice([[1.0, 1.0 + 1e-9, 1.0 + 2e-9], [2.0 ** 24, 2.0 ** 24 + 1, 2.0 ** 24 + 2], [0.1, 0.1 + 1e-12, 0.1 - 1e-12],
                                                                      [1e10, 1e10 + 1, 1e10 + 2], [-3.0, -3.0 - 4e-16 * 3, -3.0 + 1e-8]]), c),
         "float64 arrays within a float32 ulp": lambda c, t: tuple(np.array([v], dtype=np.float64) for v in pick([5.0, 5.0 + 1e-10, 5.0 - 1e-10], c)),
+        # one of the two labels arrives in an object-typed container (a cell of a mixed-type row, `df.iloc[i][["y"]].values`), the other one natively
+        "object array vs native": lambda c, t: (lambda a, b: (np.array([a], dtype=object), b) if t % 2 else (a, np.array([b], dtype=object)))(*pick([1, 2, 3], c)),
+        "object array of a float vs native int": lambda c, t: (lambda a, b: (np.array([float(a)], dtype=object), int(b)))(*pick([0, 1, 5], c)),
+        "mixed-row cell vs native": lambda c, t: (lambda a, b: (pd.DataFrame({"id": ["r"], "y": [a]}).iloc[0][["y"]].values, b))(*pick([True, False], c)),
         "words incl. nan / inf": lambda c, t: pick(["nan", "inf", "cat", "NaN"], c),
         "0 / -0 / False as different classes' stand-ins": lambda c, t: pick(["0", "-0", "0.0", "+0"], c),
         # labels whose representation differs in length / type from the first one seen
